@@ -687,7 +687,7 @@ func runC11(c *ctx) {
 	}
 	for si := 0; si < c.n(3, 12); si++ {
 		si := si
-		ok, pan := withTimeout(time.Duration(c.n(120, 1500))*time.Second, func() { c11Scenario(c, dir, si) })
+		ok, pan := withTimeout(time.Duration(c.n(120, 4000))*time.Second, func() { c11Scenario(c, dir, si) })
 		if !ok {
 			c.violation(-1, "c11-hang", fmt.Sprintf("scenario %d did not finish within its watchdog (start-up or packing deadlocked)", si), nil)
 			break
